@@ -44,8 +44,8 @@ def sample_units(pid, tier, decide):
     seen = {}
     for u in decide:
         key = (u["module"], u["fn"])
-        if key not in seen and not u.get("no_sample"):
-            seen[key] = u
+        if not u.get("no_sample"):
+            seen[key] = u  # last unit of each harness function (largest parameters)
     k = 6 if tier == "quick" else 20
     return [dict(u, id="sample:" + u["id"], mode="sample", k=k, timeout=30) for u in seen.values()]
 
